@@ -94,11 +94,23 @@ func ResetInterning() {
 	internMu.Unlock()
 }
 
+var (
+	typeKeyMu    sync.Mutex
+	typeKeyCache = map[types.Type]string{}
+)
+
 func typeKey(t types.Type) string {
 	if t == nil {
 		return ""
 	}
-	return types.TypeString(t, nil)
+	typeKeyMu.Lock()
+	defer typeKeyMu.Unlock()
+	if s, ok := typeKeyCache[t]; ok {
+		return s
+	}
+	s := types.TypeString(t, nil)
+	typeKeyCache[t] = s
+	return s
 }
 
 func mk(t Term) *Term {
